@@ -166,7 +166,10 @@ def mk_request(rng, kind, n_st, sender, net):
     return ev
 
 
-def scenario(ctx, n_st, topo, alg, n_req, know_each_other):
+def scenario(ctx, n_st, topo, alg, n_req, know_each_other, pileup=False):
+    """pileup: station 0 issues all requests as GeoUnicast to station 1, which it does not know; between the requests it
+    only hears beacons of a third station (every reception refreshes its location table), so that several requests wait for
+    one location-service lookup; everything is delivered afterwards"""
     rng = ctx.rng
     net = Net(ctx, n_st, topo, alg)
     if know_each_other:
@@ -178,13 +181,28 @@ def scenario(ctx, n_st, topo, alg, n_req, know_each_other):
         kind = rng.choice(["shb", "shb", "gbc", "gac", "guc", "guc"])
         if topo == "line" and kind == "gac":
             kind = "gbc"
+        if pileup:
+            sender, kind = 0, "guc"
         ev = mk_request(rng, kind, n_st, sender, net)
+        if pileup:
+            ev["dest"], ev["dest_idx"] = (0, net.st[1].st, net.st[1].mid), 1
         ev["rid"] = rid
         requests.append((sender, ev))
         obs = net.do(sender, ev)
         ctx.count(1, f"req_{kind}_{'btpA' if ev['btp_type'] == 1 else 'btpB'}")
         if obs["err"]:
             ctx.property_failure("request_exception", _inp(ev, sender, net), "a transport-layer request raised", None, obs["err"])
+        if pileup:
+            # a beacon of the third station reaches everybody; the frames of the lookup stay in flight
+            k3 = net.st[2]
+            k3.ll.sent.clear()
+            k3.router.gn_data_request_beacon()
+            b = k3.ll.sent.pop()
+            for j in net.links[2]:
+                net.do(j, rs.rx_event_from_octets(net.st[j], b, net.now()))
+            if rng.random() < 0.5:
+                net.tick(rng.choice([20, 300, 999]))
+            continue
         # sometimes let further requests pile up before anything is delivered (pending location lookups)
         if rng.random() < 0.6:
             net.pump()
@@ -301,6 +319,8 @@ def run(ctx):
         topo = "line" if (k % 5 == 4 and n_st > 2) else "mesh"
         alg = ctx.rng.choice(["SIMPLE", "CBF"])
         scenario(ctx, n_st, topo, alg, ctx.rng.choice([6, 10, 16]), know_each_other=(k % 3 != 0))
+        if k % 12 == 0:
+            scenario(ctx, ctx.rng.choice([3, 4]), "mesh", alg, ctx.rng.choice([2, 3, 5]), know_each_other=False, pileup=True)
     ctx.sample({"network": {"stations": n_st, "topology": topo, "algorithm": alg}})
     ctx.exhaustive = False
 
